@@ -353,7 +353,9 @@ def _xfilter(accumulator, test_range, condition, operating_range):
                     tuple({'?': '.', '*': '.*'}[v] for v in it) + ('',)
                 ), ())), re.IGNORECASE | re.DOTALL).fullmatch
                 eq = operator == '='
-                f = lambda v: isinstance(v, str) and bool(match(v)) == eq
+                f = lambda v: isinstance(v, str) and not isinstance(
+                    v, XlError
+                ) and bool(match(v)) == eq  # An error value is not a text.
                 b = np.vectorize(f, otypes=[bool])(test_range['raw'])
                 b &= ~test_range['blank']  # A blank cell is not a text.
                 try:
